@@ -188,7 +188,12 @@ def conform(T, case, values, compare_hidden=None):
     if rk == "harness-error":
         raise C.Unsupported("harness accident in the real run: %s" % rr)
     if mk_kind == "limit":
-        return None  # outside the number model: nothing to compare
+        # outside the number model (inf / NaN -> int ...): nothing to compare - except that a real run that
+        # RAISES there is worth a look (the triage evaluates the contract on it: an exception the contract
+        # does not allow is a violation with this input)
+        if rk == "raise":
+            return "model leaves the number model (%s), real raise %r" % (mr, rr)
+        return None
     if mk_kind == "symbolic":
         return "model: %s" % mr
     if mk_kind == "raise" or rk == "raise":
